@@ -950,6 +950,12 @@ pub fn check_c01(rep: &mut Report) {
     // watch mode: after each out-of-date notice
     let out = sweep(watch_cfgs(2, 2, if rep.thorough() { 2 } else { 1 }), &mk, dl, 3_000_000);
     fill_report(rep, &out, "watch, reduced: graphs <=2 targets, notification budget 1 (2 thorough)");
+    if !rep.thorough() {
+        // two notifications where one target depends on the other (a restart or re-run below, then the dependent's own change)
+        let w2: Vec<Cfg> = watch_cfgs(2, 1, 2).into_iter().filter(|c| c.targets.len() == 2 && c.targets.iter().any(|t| !t.deps.is_empty())).collect();
+        let out = sweep(w2, &mk, dl, 3_000_000);
+        fill_report(rep, &out, "watch, reduced: two dependent targets, single root, notification budget 2");
+    }
     let wf: Vec<Cfg> = watch_cfgs(2, 2, 1).into_iter().filter(|c| !builds(c).is_empty()).map(|mut c| { c.may_fail = builds(&c); c }).collect();
     let out = sweep(wf, &mk, dl, 3_000_000);
     fill_report(rep, &out, "watch, reduced: graphs <=2 targets x requested lists <=2, every build may fail, one notification");
